@@ -7,8 +7,10 @@
      Resolve / ResolveWithParams / DeferredType.Resolve                      types/resolver.go, deferredtype.go:55
      the positional creators new*Type2 of the same types                     types/*type.go
    as the code is in /repo NOW (after the fix: commits listed in design_notes/C05.md).
-   A creator argument that is an Array (the alternative forms Enum[[...]], Pattern[[...]], Variant[[...]],
-   Tuple[[...], size], Struct[[...]]) is outside the model: CUnmodelled. Parameters() never produces one.
+   A creator argument that is an Array: the alternative forms Tuple[[T...]], Tuple[[T...], Integer[min, max]],
+   Enum[[v...]], Enum[[v...], flag], Pattern[[r...]], Struct[[{...}]] are modelled (create_array_forms; the parser
+   accepts them, Parameters() never writes one); any other place of an Array (nested lists, Variant[[...]],
+   Callable) is outside the model: CUnmodelled.
    Definitions only. *)
 From Coq Require Import ZArith NArith Bool List.
 From PcoreV Require Import Model.Base Model.Ty Model.QuoteLex.
@@ -348,9 +350,61 @@ Section Create.
     | _ => CErr
     end.
 
+  (* enumtype.go:57 newEnumType3 on arguments without an Array *)
+  Definition enum_from_args (args : list pv) : cres ty :=
+    match args with
+    | [] => COk (TEnum false [])
+    | [GStr s] => COk (new_enum [s] false)
+    | [GBool b] => COk (new_enum [] b)                               (* fix 4ee7f0d *)
+    | [_] => CErr
+    | _ => cbind (enum_values args) (fun vc => COk (new_enum (fst vc) (snd vc)))
+    end.
+
+  (* structtype.go:98 newStructType2 on arguments without an Array *)
+  Definition struct_from_args (args : list pv) : cres ty :=
+    match args with
+    | [] => COk (TStruct [])
+    | [GHash kvs] => cbind (struct_elements kvs) (fun es => COk (TStruct es))
+    | [_] => CErr
+    | _ => CErr                                                      (* structtype.go:128 argument count *)
+    end.
+
+  (* The alternative forms with an Array argument (the parser accepts them; Parameters() never writes one).
+     A list inside the list is outside the model. *)
+  Definition tuple_from_list (flat : list pv) : cres ty :=          (* tupletype.go:87 on, after :72-85 *)
+    if has_array flat then CUnmodelled
+    else match flat with
+         | [] => COk (TTuple [] true 0 0)          (* an empty list of types: tupleTypeEmpty (fix a9cad06) *)
+         | _ => tuple_from_args flat
+         end.
+
+  Definition create_array_forms (n : tname) (args : list pv) : cres ty :=
+    match n, args with
+    (* tupletype.go:72-85: the list (and the parameters of the size type) become the arguments *)
+    | NTuple, [GArr es] => tuple_from_list es
+    | NTuple, [GArr es; GTy (TInteger lo hi)] => tuple_from_list (es ++ size_params lo hi)   (* both bounds (fix 2cf439c) *)
+    | NTuple, [GArr _; _] => CErr                                    (* tupletype.go:78 *)
+    (* enumtype.go:68 one argument, an Array: newEnumType3(first) *)
+    | NEnum, [GArr es] => if has_array es then CUnmodelled else enum_from_args es
+    (* enumtype.go:77 first argument an Array: its elements, then the other arguments *)
+    | NEnum, GArr es :: rest =>
+      let flat := es ++ rest in
+      if has_array flat then CUnmodelled
+      else match flat with
+           | [] => COk (TEnum false [])
+           | _ => cbind (enum_values flat) (fun vc => COk (new_enum (fst vc) (snd vc)))
+           end
+    (* patterntype.go:48 one argument, an Array: newPatternType3(av) *)
+    | NPattern, [GArr es] =>
+      if has_array es then CUnmodelled else cbind (pattern_sources es) (fun ps => COk (TPattern ps))
+    (* structtype.go:110 one argument, an Array: newStructType2(elements...) *)
+    | NStruct, [GArr es] => if has_array es then CUnmodelled else struct_from_args es
+    | _, _ => CUnmodelled
+    end.
+
   (* ResolveWithParams (resolver.go:18): the positional creator of the named type on resolved arguments *)
   Definition create (n : tname) (args : list pv) : cres ty :=
-    if has_array args then CUnmodelled else
+    if has_array args then create_array_forms n args else
     match n with
     | NBoolean =>                                                      (* booleantype.go:78 *)
       match args with [] => COk (TBoolean None) | [GBool b] => COk (TBoolean (Some b)) | _ => CErr end
@@ -376,17 +430,12 @@ Section Create.
       | [GStr s] => COk (new_string_value s)
       | [GTy (TInteger lo hi)] => COk (new_string_sized lo hi)
       | [GInt mn] => cbind (new_range mn max_int64) (fun r => COk (new_string_sized (fst r) (snd r)))
-      | [GInt mn; GInt mx] => cbind (new_range mn mx) (fun r => COk (new_string_sized (fst r) (snd r)))
+      | [a; b] =>                                  (* an integer or default for either bound (fix d2e056c) *)
+        cbind (int_or_default a min_int64) (fun mn => cbind (int_or_default b max_int64) (fun mx =>
+        cbind (new_range mn mx) (fun r => COk (new_string_sized (fst r) (snd r)))))
       | _ => CErr
       end
-    | NEnum =>                                                         (* enumtype.go:57 *)
-      match args with
-      | [] => COk (TEnum false [])
-      | [GStr s] => COk (new_enum [s] false)
-      | [GBool b] => COk (new_enum [] b)                               (* fix 4ee7f0d *)
-      | [_] => CErr
-      | _ => cbind (enum_values args) (fun vc => COk (new_enum (fst vc) (snd vc)))
-      end
+    | NEnum => enum_from_args args                                     (* enumtype.go:57 *)
     | NPattern => cbind (pattern_sources args) (fun ps => COk (TPattern ps))   (* patterntype.go:41 *)
     | NRegexp =>                                                       (* regexptype.go:76 *)
       match args with
@@ -435,12 +484,7 @@ Section Create.
                                                     switch at hashtype.go:207 applies, the size stays nil *)
       end
     | NTuple => tuple_from_args args                                   (* tupletype.go:62 *)
-    | NStruct =>                                                       (* structtype.go:98 *)
-      match args with
-      | [] => COk (TStruct [])
-      | [GHash kvs] => cbind (struct_elements kvs) (fun es => COk (TStruct es))
-      | _ => CErr
-      end
+    | NStruct => struct_from_args args                                 (* structtype.go:98 *)
     | NVariant =>                                                      (* varianttype.go:45 *)
       match args with
       | [] => COk (TVariant [])
@@ -545,7 +589,8 @@ Section Wf.
     match t with
     | TInteger lo hi => range_ok lo hi
     | TFloat lo hi => (fmin_key <=? lo) && (lo <=? hi) && (hi <=? fmax_key)
-    | TStringSz lo hi => range_ok lo hi && negb (lo =? min_int64) && negb (is_positive lo hi)
+    | TStringSz lo hi =>     (* NewStringType makes the sizes Integer[0, default] and Integer[default, default] the String type *)
+      range_ok lo hi && negb ((lo =? min_int64) && (hi =? max_int64)) && negb (is_positive lo hi)
     | TStringVal _ => false
     | TEnum ci vs => if ci then forallb (fun v => str_eqb (to_lower v) v) vs else true
     | TCollection lo hi => range_ok lo hi
